@@ -224,7 +224,9 @@ fn transpose_square_2<T>(matrix: &mut [T], size: usize) {
 // ================================================================================================
 
 fn clone_and_shift<E: FieldElement>(source: &[E], destination: &mut [E], offset: E::BaseField) {
-    let batch_size = source.len() / rayon::current_num_threads().next_power_of_two();
+    // a batch has at least one element (par_chunks panics on a zero chunk size)
+    let batch_size =
+        core::cmp::max(source.len() / rayon::current_num_threads().next_power_of_two(), 1);
     source
         .par_chunks(batch_size)
         .zip(destination.par_chunks_mut(batch_size))
